@@ -72,6 +72,9 @@ pub fn run_monitors(mon: &Mon, sim: &Sim, step: &Step, st: &mut Stats) -> Result
     if mon.c20 {
         mon_c20(sim, step, st)?;
     }
+    if mon.c19 {
+        mon_c19(sim, step, st)?;
+    }
     Ok(())
 }
 
